@@ -151,6 +151,27 @@ theorem outsOfWire_restrict (p : Peer) (ops : List Op) (t : Table) :
     · simp only [outsOfWire, h, if_false, List.filter, decide_false]
       rw [ih, stepWire_restrict_other p t op h]
 
+/-- a whole request (a list of operations) of the session itself commutes with restriction -/
+theorem run_restrict_own (p : Peer) (w : List Op) (t : Table) (h : ∀ op ∈ w, op.peer = p) :
+    run (restrict p t) w = (restrict p (run t w).1, (run t w).2) := by
+  induction w generalizing t with
+  | nil => rfl
+  | cons op ops ih =>
+    have h1 := h op List.mem_cons_self
+    have h2 : ∀ o ∈ ops, o.peer = p := fun o ho => h o (List.mem_cons_of_mem _ ho)
+    simp only [run, step_restrict_own p t op h1, ih _ h2]
+
+/-- a whole request of another session leaves this session's part of the table alone -/
+theorem run_restrict_other (p : Peer) (w : List Op) (t : Table) (h : ∀ op ∈ w, op.peer ≠ p) :
+    restrict p (run t w).1 = restrict p t := by
+  induction w generalizing t with
+  | nil => rfl
+  | cons op ops ih =>
+    have h1 := h op List.mem_cons_self
+    have h2 : ∀ o ∈ ops, o.peer ≠ p := fun o ho => h o (List.mem_cons_of_mem _ ho)
+    simp only [run]
+    rw [ih _ h2, step_restrict_other p t op h1]
+
 /-- keys stay unique (the list really is a dict) -/
 def KeysNodup (t : Table) : Prop := (t.map (·.1)).Nodup
 
